@@ -78,6 +78,7 @@ func (node *Node) processBlocks(ctx context.Context) error {
 			// the headers that replace it will never link.
 			node.state.SetLastHash(*node.blocks.LastHash())
 		}
+		node.state.BlockProcessed()
 
 		// Request more blocks if necessary
 		// TODO Send some requests to other nodes --ce
@@ -440,6 +441,8 @@ func (node *Node) ProcessBlock(ctx context.Context, block wire.Block) error {
 		return err
 	}
 
+	// The block is in the chain now, so it no longer holds back the in sync status.
+	node.state.BlockProcessed()
 	if !node.state.IsReady() {
 		if node.state.IsPendingSync() && node.state.BlockRequestsEmpty() {
 			node.state.SetInSync()
